@@ -1,10 +1,14 @@
-/- line-protocol driver for C18: `drv_c18 lineno` (protocol in Driver/LineNoCmd.lean).
+/- line-protocol driver for C18: `drv_c18 lineno` (protocol in Driver/LineNoCmd.lean) | `drv_c18 ppexpand` (the macro-expansion
+   model Model/PP.lean from the table of init_macros, protocol of `drv_c09 expand` in Driver/PPCmd.lean; C18 reads the values
+   `__LINE__` expands to: `C18_macro_origin_pp`).
    Core Lean only (nothing imported here may import Mathlib, or the executable will not link). -/
 import ChibiVerif.Driver.LineNoCmd
+import ChibiVerif.Driver.PPCmd
 
 def main (args : List String) : IO UInt32 := do
   match args with
-  | "lineno" :: _ => ChibiVerif.Driver.linenoMain
+  | "lineno" :: _ => ChibiVerif.Driver.LineNoCmd.linenoMain
+  | "ppexpand" :: _ => ChibiVerif.Driver.ppMain false
   | _ =>
-    IO.eprintln "usage: drv_c18 lineno"
+    IO.eprintln "usage: drv_c18 lineno|ppexpand"
     return 2
